@@ -418,6 +418,25 @@ def replay(res):
         g = GroupedRecord("grp/x", [d(*v) for d, v in zip(descs, vals)])
         exp = ref_merge([[(TYPES.get(t, t), n) for t, n in POOL[i]] for i in idx], vals, False)
         got = [(t, n, getattr(g, n)) for t, n in g._desc.get_field_tuples()]
+        if got == exp:
+            # replace-style copy: only the named field of the member that exposes it changes; every member keeps its other values
+            probs = []
+            for t, n, _ in exp:
+                if t != "varint":
+                    continue
+                try:
+                    g2 = g._replace(**{n: 777})
+                except Exception as e:  # noqa: BLE001
+                    probs.append(f"_replace({n}=777) raised {type(e).__name__}: {e}")
+                    continue
+                owner = next(k for k, i in enumerate(idx) if any(fn == n for _, fn in POOL[i]))
+                for k, (old, new) in enumerate(zip(g.records, g2.records)):
+                    for _, fn in POOL[idx[k]]:
+                        want = 777 if (k == owner and fn == n) else getattr(old, fn)
+                        if getattr(new, fn) != want:
+                            probs.append(f"_replace({n}=777): member {k} field {fn} is {getattr(new, fn)!r}, expected {want!r}")
+            if probs:
+                return {"reproduced": True, "key": "C15/grouped/replace-members", "what": f"GroupedRecord of {[POOL[i] for i in idx]}: " + "; ".join(probs[:2]), "input": {"shape": a["shape"]}}
         return {"reproduced": got != exp, "key": f"C15/grouped/{a['shape']}", "what": f"GroupedRecord of {[POOL[i] for i in idx]}: flat view {got}, expected (first member wins) {exp}"[:600], "input": {"shape": a["shape"]}}
     if "O4-projection" in gid:
         D = RecordDescriptor("t/proj", [("varint", "a"), ("string", "b"), ("varint", "c")])
